@@ -251,6 +251,17 @@ def r3_reuse(chk, f):
         outs = {nm for nm, vals in asg_scope.items() for v in vals if isinstance(v, ast.Call) and norm(v.func) == "JobOutput.load"}
         guard = next((g for g in guards if any(o in names_in(g.test) for o in outs)), guards[-1] if guards else None)
         if not any("exitcode" in norm(x) or "input_hash" in norm(x) for x in conj):
+            # the decision may be taken somewhere this rule does not read: a conjunct that is (a field of) the result of a call made in this
+            # iteration - a record returned by an inspection helper that was not expanded - hides the tests; that is not "no test"
+            opaque = []
+            for x in conj:
+                root = x
+                while isinstance(root, (ast.Attribute, ast.Subscript, ast.UnaryOp)):
+                    root = root.operand if isinstance(root, ast.UnaryOp) else root.value
+                if isinstance(root, ast.Name) and any(isinstance(v, ast.Call) and norm(v.func) not in ("JobOutput.load",) and not norm(v.func).endswith((".exists", ".is_file")) for v in asg_scope.get(root.id, []) if isinstance(v, ast.AST)):
+                    opaque.append(norm(x))
+            if opaque:
+                raise AnalysisError(f"{f.key}: whether a cached output is reused is decided by `{opaque[0]}`, the result of a call made in this iteration that the rule cannot read - not decided")
             chk.fail("C18.R3", key, f.where(c), "a cached output is reused (the item is skipped) without any test of its exit code and input hash")
             continue
         has_exit = any(norm(x) in [f"{o}.exitcode == 0" for o in outs] + [f"not {o}.exitcode" for o in outs] + [f"0 == {o}.exitcode" for o in outs] for x in conj)
